@@ -9,6 +9,15 @@
    variable it belongs to (if any) and the per-observation log-densities that
    [init_dist().log_prob(at.value)] returns at the current values.
 
+   The nodes are those of the FINAL built graph: GraphBuilder.build_model first applies the pending
+   auto-transforms (Var.auto_transform: the variable loses its distribution, `<name>_transformed`
+   carries the transformed one), then names the nodes and only then wires the three totals; so a
+   transformed variable's distribution node is among [nodes] and the detached original one is not.
+   The log-density values are whatever the wrapped distribution object returns (jax.Array, NumPy
+   array, Python float, any object with .sum): [reduce] mirrors `arg.sum() if hasattr(arg, "sum")`.
+   "Current values" are the values the Value nodes show now, however they were assigned (fresh
+   object, equal object, the same buffer modified in place).
+
    Numbers are rationals: the real code adds floats, the correspondence compares up to a
    rounding tolerance; the theorems are about the exact sums. *)
 From Coq Require Import List QArith Bool.
